@@ -50,7 +50,15 @@ class _Comp(object):
         return out
 
 
+class CodecError(Exception):
+    pass
+
+
 class _Decomp(object):
+    # zstandard's decompressobj refuses any further decompress() call once the frame has ended (even with empty input);
+    # zlib's accepts it and files the bytes under unused_data.  Both behaviours are part of the contract and are validated.
+    reusable_after_eof = True
+
     def __init__(self, rec, header):
         self.rec = rec
         self.header = header
@@ -61,6 +69,8 @@ class _Decomp(object):
 
     def decompress(self, data):
         self.rec.calls.append(('decompress', data))
+        if self.eof and not self.reusable_after_eof:
+            raise CodecError('cannot use a decompressobj multiple times')
         out = []
         for b in data:
             if self.state == 'head':
@@ -131,7 +141,9 @@ class FakeZstd(object):
 
             def decompressobj(self, *a, **kw):
                 outer.rec.calls.append(('decompressobj', a, dict(kw)))
-                return _Decomp(outer.rec, ZSTD)
+                d = _Decomp(outer.rec, ZSTD)
+                d.reusable_after_eof = False
+                return d
         self.ZstdCompressor = ZstdCompressor
         self.ZstdDecompressor = ZstdDecompressor
 
@@ -184,6 +196,16 @@ def validate():
                 got += d.flush() if name == 'zlib' else (d.flush() or b'')
                 if got != want:
                     return '%s: payload mismatch' % name
+            # after the end of the stream: zlib accepts further (empty) input, zstandard raises
+            d = zlib.decompressobj(wbits=zlib.MAX_WBITS | 16) if name == 'zlib' else zstandard.ZstdDecompressor().decompressobj()
+            d.decompress(whole)
+            try:
+                d.decompress(b'')
+                raised = False
+            except Exception:
+                raised = True
+            if raised != (name == 'zstd'):
+                return '%s: decompress(b"") after eof %s' % (name, 'raises' if raised else 'does not raise')
             for t in (0, 1, len(whole) // 2, len(whole) - 1):
                 d = zlib.decompressobj(wbits=zlib.MAX_WBITS | 16) if name == 'zlib' else zstandard.ZstdDecompressor().decompressobj()
                 d.decompress(whole[:t])
